@@ -376,7 +376,8 @@ func (c *XAConn) ShouldBeHeld() bool {
 }
 
 func (c *XAConn) checkTimeout(ctx context.Context, now time.Time) error {
-	if now.Sub(c.branchRegisterTime) > xaConnTimeout {
+	// a zero timeout means none is configured (InitXA has not run): it must not expire every branch
+	if xaConnTimeout > 0 && now.Sub(c.branchRegisterTime) > xaConnTimeout {
 		c.XaRollback(ctx, c.xaBranchXid)
 		return fmt.Errorf("XA branch timeout error xid:%s", c.txCtx.XID)
 	}
